@@ -286,6 +286,11 @@ class ConservationMonitor:
                 if len(psd) > len(cap['x'][p]) and not regrid:
                     dif = np.abs(psd[:len(cap['x'][p])] - cap['x'][p])
                     slack += pref * float(np.sum(dif * cap['size'][p] ** 3)) * xbmax * 1.000001
+                    # the table is re-queried for the extended grid at the newly recorded matrix composition
+                    xb_old = cap['xbeta'][p]
+                    if xb_old is not None:
+                        k = len(xb_old)
+                        slack += out['volFrac'][p] * np.max(np.abs(np.asarray(xb)[:k] - xb_old), axis=0)
                 else:
                     # chain: M3(x) -> truncation of sub-1 classes -> [extend] -> re-mesh v0 -> v1 (preserved, C08) -> documented zeroing
                     # of classes below the stability / minimum-radius threshold on the new grid -> live.  The composition weighting
